@@ -24,8 +24,8 @@ struct Ext { // external memory behind the AHBM callbacks, with an access log
 struct Inst {
     std::unique_ptr<Machine> m;
     Ext ext;
-    Inst() {
-        m = std::make_unique<Machine>();
+    explicit Inst(u8* user_memory = nullptr) {
+        m = std::make_unique<Machine>(user_memory);
         ext.log = &m->log;
         T::AHBMCallback cb;
         cb.read8 = [this](u32 a) { ext.log->push_back(Fmt("r8:%X", a)); return ext.Get(a); };
@@ -339,6 +339,27 @@ inline bool CheckReset(Inst& in, const std::vector<Op>& ops, const std::vector<i
     return false;
 }
 
+
+// (c) the same with DSP memory supplied by the host (UserConfig::dsp_memory): the instance under test lives in a buffer that was
+// full of 0x5A and then carries h1's traces, the reference in a zeroed buffer; after Reset both must observe the same
+inline void CheckUserMemory(const std::vector<Op>& ops, const std::vector<int>& h1, const std::vector<int>& h2, Result& res, std::unordered_set<u64>& dig) {
+    static std::vector<u8> buf_a(0x80000), buf_b(0x80000);
+    std::fill(buf_a.begin(), buf_a.end(), 0x5A);
+    std::fill(buf_b.begin(), buf_b.end(), 0x00);
+    std::string rp = Fmt("c17 usermem %s %s", HistIds(h1).c_str(), HistIds(h2).c_str());
+    Inst ref(buf_b.data());
+    ref.m->teakra->Reset();
+    bool wok = Apply(ref, ops, h2);
+    Obs want = wok ? Observe(ref) : Obs{};
+    Inst in(buf_a.data());
+    size_t before = res.violations.size();
+    CheckReset(in, ops, h1, h2, want, wok, res, rp, false);
+    if (res.violations.size() != before)
+        res.violations.back().key += ":user-memory";
+    if (wok)
+        dig.insert(Fnv(want.data(), sizeof(Obs), 0x5A));
+}
+
 struct Plan {
     std::vector<std::vector<int>> fresh, h1s, h2s;
     bool th;
@@ -432,6 +453,8 @@ inline int RunReplay(const std::string& r, Result& res) {
         for (auto& v : all.violations)
             if (v.replay == r)
                 res.AddViolation(v.key, v.text, v.replay);
+    } else if (std::sscanf(r.c_str(), "c17 usermem %255s %255s", a, b) == 2) {
+        CheckUserMemory(ops, ParseIds(a), ParseIds(b), res, dig);
     } else if (std::sscanf(r.c_str(), "c17 reset %255s %255s", a, b) == 2) {
         auto h1 = ParseIds(a), h2 = ParseIds(b);
         Inst ref;
@@ -466,6 +489,14 @@ inline void Run(const Args& args, Result& res) {
                     CheckFresh(ops, fresh[i], true, local, dig);
                 }
                 ChainWorker(ops, plan, idx, cnt, local, dig);
+                {
+                    size_t job = 0;
+                    for (auto& h1 : h1s)
+                        if (h1.size() <= 1)
+                            for (auto& h2 : h2s)
+                                if (h2.size() <= 1 && (job++ % cnt) == (size_t)idx)
+                                    CheckUserMemory(ops, h1, h2, local, dig);
+                }
                 blk.evaluations = local.evaluations;
                 blk.transitions = local.transitions;
                 blk.traces = local.traces_validated;
@@ -478,7 +509,8 @@ inline void Run(const Args& args, Result& res) {
                    "instances whose heap (operator new) is pre-filled with 0x00/0xFF/0xA5, with and without an initial Reset, observations "
                    "(registers incl. hidden banks, latches, MIU, ICU incl. vectors, APBP, timers, audio port, DMA, AHBM incl. burst queues, "
                    "512 KiB memory digest, host API getters, callback/AHBM access log) must be equal; (b) h1;Reset;h2 must equal "
-                   "fresh;Reset;h2 for every pair, instances are reused across cases (longer histories), a disagreement is re-run alone; "
+                   "fresh;Reset;h2 for every pair, instances are reused across cases (longer histories), a disagreement is re-run alone; (c) the same "
+                   "for histories of length <= 1 with host-supplied DSP memory (instance in a buffer full of 0x5A, reference in a zeroed one); "
                    "distinct = distinct observation vectors",
                    n);
     res.bound = Fmt("(a) %zu histories (length <= 2) x 2 variants x 3 heap fills; (b) %zu histories h1 (length <= %d) x %zu histories h2 (length <= 1)",
